@@ -3,7 +3,7 @@ and the report of what the extraction dropped goes into the evidence): loops car
 obligations hold for every number of vertices / sub-samples / pixels.  What remains assumed is listed in contracts/index.py
 (A-CYTHON: compilation preserves the meaning of the extracted subset; C doubles as reals, C ints as integers)."""
 from pyvc.api import contract
-from spec.polygon import crossings, crossings_odd
+from spec.polygon import crossings, crossings_odd, odd_crossings
 
 PNPOLY = 'regions/_geometry/pnpoly.pyx::'
 
@@ -14,7 +14,7 @@ class kernel_point_in_polygon:
     def setup(B):
         n = B.int('n')
         return dict(x=B.real('x'), y=B.real('y'), vx=B.array('vx', (n,)), vy=B.array('vy', (n,)))
-    loops = {'point_in_polygon#0': lambda i, result, x, y, vx, vy: result == crossings(vx, vy, x, y, i)}
+    loops = {'point_in_polygon#0': lambda i, result, x, y, vx, vy: result >= 0 and (result % 2 == 1) == odd_crossings(vx, vy, x, y, i)}
     post = {
         'even_odd_rule': lambda x, y, vx, vy, result: (result == 1) == crossings_odd(vx, vy, x, y),
         'zero_or_one': lambda result: result == 0 or result == 1,
@@ -30,7 +30,7 @@ class kernel_points_in_polygon:
     forall = {'K': 'int'}
     loops = {
         'points_in_polygon#0': lambda i, result, x, y, vx, vy, K: (not (0 <= K and K < i)) or ((result[K] == 1) == crossings_odd(vx, vy, x[K], y[K])),
-        'point_in_polygon#0': lambda i, result, x, y, vx, vy: result == crossings(vx, vy, x, y, i),
+        'point_in_polygon#0': lambda i, result, x, y, vx, vy: result >= 0 and (result % 2 == 1) == odd_crossings(vx, vy, x, y, i),
     }
     post = {
         'one_answer_per_point': lambda x, result: len(result) == len(x),
@@ -154,7 +154,7 @@ class kernel_polygon_subpixel:
             _outer('polygon', (vx, vy), i, frac, x, x0, y0, x1, y1, dx, dy, subpixels),
         'polygonal_overlap_single_subpixel#1': lambda j, i, frac, x, y, x0, y0, x1, y1, dx, dy, subpixels, vx, vy:
             _inner('polygon', (vx, vy), i, j, frac, x, y, x0, y0, x1, y1, dx, dy, subpixels),
-        'point_in_polygon#0': lambda i, result, x, y, vx, vy: result == crossings(vx, vy, x, y, i),
+        'point_in_polygon#0': lambda i, result, x, y, vx, vy: result >= 0 and (result % 2 == 1) == odd_crossings(vx, vy, x, y, i),
     }
     post = {'sampled_fraction': lambda x0, y0, x1, y1, vx, vy, subpixels, result:
             result == sampled_fraction('polygon', (vx, vy), x0, y0, x1 - x0, y1 - y0, subpixels)}
@@ -390,6 +390,8 @@ def _far_inner(kind, params, a, b, x0, y0, x1, y1, n):
         from vprim import general
         general('sample_centre_inside_cell', _centre_inside, x0, x1, a, n)
         general('sample_centre_inside_cell', _centre_inside, y0, y1, b - 1, n)
+        if kind == 'circle':
+            general('point_of_a_far_cell_is_beyond_R', _far_point, x0, y0, x1, y1, p[0], p[1], params[0])
     return (0 <= a and a < n and tot_count(kind, params, x0, y0, x1 - x0, y1 - y0, n, a) == 0
             and col_count(kind, params, x0, y0, x1 - x0, y1 - y0, n, a, b) == 0)
 
@@ -677,7 +679,7 @@ def ghost_point_vs_polygon(vx, vy, x, y):
     n = len(vx)
     for k in range(n):
         pass
-    return crossings(vx, vy, x, y, n)
+    return odd_crossings(vx, vy, x, y, n)
 
 
 def _between(y, yk, yj, xk, xj):
@@ -700,9 +702,10 @@ def _edge_inv(k, vx, vy, x, y, n):
         witness(n, j)
         general('meeting_point_between_the_end_points', _between, y, vy[kk], vy[j], vx[kk], vx[j])
     left = x < vx.min()
-    c = crossings(vx, vy, x, y, k)
-    parity = ite(k >= 1 and (above(k - 1) != above(n - 1)), 1, 0) if not (isinstance(k, int) and k == 0) else 0
-    return 0 <= c and ((not left) or c % 2 == parity) and (left or c == 0)
+    odd = odd_crossings(vx, vy, x, y, k)
+    if isinstance(k, int) and k == 0:
+        return not odd
+    return ((not left) or odd == (k >= 1 and (above(k - 1) != above(n - 1)))) and (left or not odd)
 
 
 @contract('contracts/k_kernels.py::ghost_point_vs_polygon', props=['C02', 'C01'])
@@ -713,7 +716,7 @@ class lemma_point_outside_the_vertex_box_has_even_crossing_number:
         return dict(vx=B.array('vx', (n,)), vy=B.array('vy', (n,)), x=B.real('x'), y=B.real('y'))
     pre = lambda vx, vy, x, y: outside_bbox(vx, vy, x, y)
     loops = {'ghost_point_vs_polygon#0': lambda k, vx, vy, x, y, n: _edge_inv(k, vx, vy, x, y, n)}
-    post = {'even': lambda result: result % 2 == 0,
+    post = {'even': lambda result: not result,
             'not_a_member': lambda vx, vy, x, y: not crossings_odd(vx, vy, x, y)}
 
 
